@@ -3,7 +3,7 @@ CONSTANTS
   PartIds = {"e", "z", "a", "m80", "az", "L56"}
   TupleIds = {"e", "z", "a", "m7f", "m80", "az", "x81", "x80", "L55", "L56"}
   RawIds = {"a", "e"}
-  Types = {"hash", "phash", "rlp", "raw"}
+  Types = {"hash", "phash", "rlp", "raw", "tkey"}
   MaxBuilders = 2
   MaxArgs = 2
   MaxParts = 3
